@@ -19,7 +19,7 @@ ID = "C19"
 SHARDS = {"quick": 8, "thorough": 16}
 RULE = ("tables of 1-4 variables (documented file-name patterns) on grids of 9-33 temperatures x 9-33 pressures from smooth "
         "g(T,P); requested T or P anywhere in range but not within 1 % of a half-way point; geotherm files with 3-30 rows "
-        "(extra depth column) through grid nodes and between them; non-trivial = >= 2 variables or a request strictly between "
+        "(extra depth column; numbers written as floats or as whole numbers without decimal point) through grid nodes and between them; non-trivial = >= 2 variables or a request strictly between "
         "nodes; distinct by the drawn case")
 ASSUMPTIONS = [
     "printed precision of pandas to_string: 5e-6*max(1,|x|)",
@@ -47,7 +47,9 @@ def cases(draw):
             "p0": draw(st.sampled_from([0.0, -5.0, 10.0])), "dp": draw(st.sampled_from([0.5, 1.0, 2.5, 5.0])),
             "mode": draw(st.sampled_from(["T", "P"])), "frac": draw(st.floats(0.0, 1.0)),
             "cell_frac": draw(st.one_of(st.just(0.0), st.floats(0.02, 0.48), st.floats(0.52, 0.98))),
-            "hide": draw(st.booleans()), "geo_rows": draw(st.integers(3, 30)), "geo_nodes": draw(st.booleans())}
+            "hide": draw(st.booleans()), "geo_rows": draw(st.integers(3, 30)), "geo_nodes": draw(st.booleans()),
+            # how the numbers of the geotherm file are written: floats, or whole numbers without a decimal point
+            "geo_fmt": draw(st.sampled_from(["float", "float", "int", "int-PT"]))}
 
 
 def write_tables(d, c, nt=None, npr=None):
@@ -135,8 +137,19 @@ def geotherm_text(c, T, P, rng):
         gp = np.sort(rng.uniform(P[0], P[-1], n))
         gt = np.sort(rng.uniform(T[0], T[-1], n))
     depth = np.linspace(10.0, 2800.0, n)
-    rows = ["    P      D     T"] + ["%s %s %s" % (repr(float(p)), repr(float(dd)), repr(float(t))) for p, dd, t in zip(gp, depth, gt)]
-    return "\n".join(rows) + "\n", gt, gp, depth
+    fmt = c.get("geo_fmt", "float")
+    at_nodes = c["geo_nodes"]
+    if fmt != "float":
+        # whole-number P and T (a geotherm typed by hand): still inside the tabulated range
+        gp2 = np.clip(np.round(gp), np.ceil(P[0]), np.floor(P[-1]))
+        gt2 = np.clip(np.round(gt), np.ceil(T[0]), np.floor(T[-1]))
+        at_nodes = at_nodes and np.array_equal(gp2, gp) and np.array_equal(gt2, gt)
+        gp, gt = gp2, gt2
+        if fmt == "int":
+            depth = np.round(depth)
+    w = lambda x, whole: ("%d" % int(x)) if whole else repr(float(x))
+    rows = ["    P      D     T"] + ["%s %s %s" % (w(p, fmt != "float"), w(dd, fmt == "int"), w(t, fmt != "float")) for p, dd, t in zip(gp, depth, gt)]
+    return "\n".join(rows) + "\n", gt, gp, depth, at_nodes
 
 
 def geotherm_oracle(ctx, c):
@@ -151,7 +164,7 @@ def geotherm_oracle(ctx, c):
         try:
             T, P, tabs = write_tables(d, c, nt=(c["nt"] - 1) * refine + 1, npr=(c["np"] - 1) * refine + 1)
             if gtext is None:
-                gtext, gt, gp, depth = geotherm_text(c, T, P, rng)
+                gtext, gt, gp, depth, at_nodes = geotherm_text(c, T, P, rng)
             open(os.path.join(d, "geotherm.txt"), "w").write(gtext)
             res = run_cli(d, cij.cli.geotherm.main, ["-g", "geotherm.txt", "-v", ",".join(names)])
         finally:
@@ -172,7 +185,7 @@ def geotherm_oracle(ctx, c):
             want = tabs[name](gt, gp)
             scale = max(scale, float(np.max(np.abs(want))))
             dev = np.abs(vals[:, 3 + n] - want)
-            if c["geo_nodes"]:
+            if at_nodes:
                 bad = [j for j in range(len(dev)) if not close(vals[j, 3 + n], want[j])]
                 if bad:
                     j = bad[0]
@@ -180,9 +193,9 @@ def geotherm_oracle(ctx, c):
                         name, gp[j], gt[j], vals[j, 3 + n], float(want[j])), c)
             err = max(err, float(np.max(dev)))
         errs.append((err, scale))
-        if c["geo_nodes"]:
+        if at_nodes:
             break
-    if not c["geo_nodes"]:
+    if not at_nodes:
         (e1, sc), (e2, _) = errs
         if e1 > 2e-3 * sc:
             raise PropertyViolation("C19/geotherm/accuracy", "interpolated value off by %.3g (scale %.3g)" % (e1, sc), c)
@@ -203,7 +216,7 @@ def sub_geotherm(ctx):
     def body(c):
         geotherm_oracle(ctx, c)
         ctx.case(dict(c, geotherm=True), len(c["vars"]) >= 2 or not c["geo_nodes"],
-                 classes=["geotherm-nodes" if c["geo_nodes"] else "geotherm-between", "nvar=%d" % len(c["vars"])])
+                 classes=["geotherm-nodes" if c["geo_nodes"] else "geotherm-between", "nvar=%d" % len(c["vars"]), "geotherm-numbers=" + c.get("geo_fmt", "float")])
 
     ctx.run_given(body, cases(), max_examples=ctx.n(120, 5000))
 
